@@ -222,6 +222,31 @@ func run(cfg *runCfg, mode string) int {
 			}
 		}
 	}
+	// zero-annotation sweep: functions of the module that have no contract and could not be executed in
+	// place are analysed for crash-freedom under no precondition (loops without invariants: everything
+	// they modify is havocked). Their obligations are new by construction: they can only become a
+	// VIOLATION through a failing input reproduced on the real code.
+	for i := 0; i < len(g.sweep) && i < 20; i++ {
+		it := g.sweep[i]
+		ct := &Contract{Key: g.relKey(it.fn), Pkg: g.fnPkgPath(it.fn), Props: nil, SafetyProps: it.props, Loops: map[int]*LoopSpec{}}
+		fx := newFnExec(g, it.fn, ct)
+		err := fx.run()
+		k := "sweep:" + it.fn.String()
+		r := &fnResult{key: k, fx: fx, err: err}
+		results = append(results, r)
+		if err != nil {
+			fmt.Fprintf(os.Stderr, "NOTE: sweep of %s incomplete: %v\n", it.fn.String(), err)
+		}
+		for _, o := range fx.obls {
+			if o.Canary {
+				continue
+			}
+			if cfg.prop == "" || hasProp(o.Props, cfg.prop) {
+				r.obls = append(r.obls, o)
+				allObls = append(allObls, o)
+			}
+		}
+	}
 	tGen := time.Since(t0).Seconds() - tLoad
 
 	if mode == "list" {
